@@ -33,7 +33,7 @@ GATES = [
     ("COMBINE_TUPLE", "C10", "every tuple holds the latest value of every member, and none is emitted before all have one"),
     ("COMBINE_DONE", "C10", "combine completes the sink only after every member has ended"),
     ("OP3", "C12", "operator-specific clause 3"),
-    ("OP4", "C16", "operator-specific clause 4"),
+    ("TICK_ORDER", "C16", "the k-th number delivered is k: 0, 1, 2, ... one per elapsed period"),
 ]
 INDEX = {n: i for i, (n, _, _) in enumerate(GATES)}
 N = len(GATES)
